@@ -458,7 +458,10 @@ def check_case(c):
         m = c["model"].get(p)
         if m is not None and m["ans"] not in ("unsupported", "badrequest"):
             if r == "panic":
-                dis.append({"perm": p, "what": "real panics, model answers", "model": m["ans"]})
+                # merge_so_string / merge_so_number hit `unimplemented!()` on two different validations (finding C09-validation-panic);
+                # the model has no panic: where the real merge reaches that site before it reaches the conflict the model reports,
+                # the two are not compared (the failure itself is attributed below)
+                if not pred_validation_panic(c): dis.append({"perm": p, "what": "real panics, model answers", "model": m["ans"]})
             elif (r == "never") != (m["ans"] == "never"):
                 dis.append({"perm": p, "what": "never flag", "real": r, "model": m["ans"]})
             elif "?" not in m["vec"] and mv is not None and all(isinstance(x, bool) for x in mv) and vec_text(mv) != m["vec"]:
@@ -489,6 +492,7 @@ def attribute(c, fail, dis):
     """finding id for a property failure, or None (-> VIOLATION). The model must reproduce the real answers on the
     permutations involved and report a gap of the right kind; inputs outside the AST: python predicates."""
     ps = [fail["perm"]] + ([fail["perm2"]] if "perm2" in fail else [])
+    if any(c["real"].get(p) == "panic" for p in ps) and pred_validation_panic(c): return "C09-validation-panic"
     bad = {tuple(d["perm"]) for d in dis}
     ms = [c["model"].get(p) for p in ps]
     if all(m is not None and m["ans"] not in ("unsupported", "badrequest") for m in ms) and not any(tuple(p) in bad for p in ps):
